@@ -1282,4 +1282,11 @@ theorem handler_table :
     (∀ c ∈ ownClasses, Exec.handle evalCaught (Exec.convert evalConverted c) = .done 1 false true) := by
   decide +kernel
 
+/-- `dispatch("<", (x, y))` on two plain numbers of any kind: the exact comparison, as 0 / 1 (used by the no-progress
+    guard of `ka_range`) -/
+theorem rnum_lt (n : Nat) (x y : Num) :
+    rnum (fun nm as => dispatchV (n + 1) nm as []) "<" [x, y] = .ok (.int (if cmpLt x y then 1 else 0)) := by
+  have h := rnum_cmp n .lt x y
+  simpa only [cmpOpName, Compare.cmpNum, Compare.b2n] using h
+
 end KaVerif.Pipe2
